@@ -24,12 +24,16 @@ func clientResend(r *h.Run, idx int) {
 	r.Journal("C15 client resend #%d k=%d", idx, k)
 	srv := ch.NewServer()
 	recFor := map[packet.ID]bool{}
+	ackFor := map[packet.ID]bool{}
 	srv.Prep = func(c *ch.Conn) {
 		c.Peer.AutoReply = ch.Broker(c.N > 1, func(in packet.Generic, def []packet.Generic) []packet.Generic {
 			switch v := in.(type) {
 			case *packet.Publish:
 				if c.N == 1 && v.Message.QOS == 2 && recFor[v.ID] {
 					return def // PUBREC, so that the client stores a PUBREL
+				}
+				if c.N == 1 && v.Message.QOS == 1 && ackFor[v.ID] {
+					return def // a flow in the middle completes
 				}
 				return nil // withhold acknowledgements
 			case *packet.Pubrel:
@@ -45,6 +49,8 @@ func clientResend(r *h.Run, idx int) {
 	for i := 1; i <= k; i++ {
 		if rng.Intn(3) == 0 {
 			recFor[packet.ID(i)] = true
+		} else if i > 1 && i < k && rng.Intn(3) == 0 {
+			ackFor[packet.ID(i)] = true
 		}
 	}
 	c1 := client.New()
@@ -101,9 +107,35 @@ func clientResend(r *h.Run, idx int) {
 			state[v.ID] = "PUBREL"
 		}
 	}
+	// flows the scripted broker completed are gone once the client processed the PUBACK
+	ackedIDs := map[packet.ID]bool{}
+	deadline := time.Now().Add(2 * time.Second)
+	for time.Now().Before(deadline) {
+		ackedIDs = map[packet.ID]bool{}
+		want := 0
+		for _, e := range srv.Log.Events() {
+			if e.Who == "srv#1" && e.Kind == "ssend" {
+				if _, ok := e.Pkt.(*packet.Puback); ok {
+					want++
+				}
+			}
+			if e.Who == "cli#1" && e.Kind == "crecv" {
+				if a, ok := e.Pkt.(*packet.Puback); ok {
+					ackedIDs[a.ID] = true
+				}
+			}
+		}
+		if len(ackedIDs) >= want {
+			break
+		}
+		time.Sleep(time.Millisecond)
+	}
+	time.Sleep(2 * time.Millisecond) // shaping: let the processor finish the last PUBACK
 	var original []string
 	for _, id := range ids {
-		original = append(original, fmt.Sprintf("%s(%d)", state[id], id))
+		if !ackedIDs[id] {
+			original = append(original, fmt.Sprintf("%s(%d)", state[id], id))
+		}
 	}
 	conn1.Peer.Close()
 	done := make(chan struct{})
